@@ -29,6 +29,9 @@ CHECKS = {
  "C08": ("proof (Lean 4) about index kernels regenerated from the Go AST (injectivity, range) + grid refinement of the model; exhaustive small-shape correspondence",
          "C08.idx_inj/idx_lt/row_range/span_range/fill_range are proved about Gen.A2D.* which the extractor regenerates from array2d.go on every run; C08.set_get/set_frame/oob_panics_unchanged/row_live/rowSpan_live/fill_exact/fromJagged/refines_grid about the model, tied by C08.gen_*_eq and by exhaustive correspondence over all shapes 0..5x0..5 with in- and out-of-bounds coordinates.",
          "§8 C08, App. A"),
+ "C10": ("invariant proofs (Lean 4) over a transition system of pubsub.go (RWMutex, WaitGroup, channels, sender goroutines, clones): no panic under CloneDiscipline, the clone-after-unsub panic as a proved negation (known finding), Unsub/UnsubAll/WithOnly exactness; event-trace acceptance of subprocess scenarios",
+         "C10.no_panic_partial (all schedules, any subscribers/buffers: no send on / second close of a closed channel, under CloneDiscipline), C10.clone_after_unsub_panics (the unrestricted statement is FALSE of model and code: proved witness, replayed on the implementation, listed in known_findings.json), C10.unsub_exact/_nil/_all, C10.withOnly, C10.wait_complete_partial, C10.sync_exactly_once_in_order_partial(_next). Tie: random scenarios run in subprocesses, event traces accepted by the Lean transition system and checked against history predicates (exactly-once, order, after-removal, error codes, exit status).",
+         "§8 C10"),
  "C11": ("invariant proof (Lean 4): forward/reverse maps mutually inverse after every op sequence; eviction/removal frame theorems",
          "C11.inverse_inv/add_evicts/remove_both/len_eq_pairs/range_once/contains_agree/clear/clone_eq/refines_spec for all op sequences incl. clones and zero values. Tie: histories over 4x4 universe with full observation after every mutation, exhaustive short histories.",
          "§8 C11"),
@@ -69,6 +72,7 @@ CHECKS = {
 LEVEL_NOTES = {
  "C05": "Proved: specification-level statements and the sequential refinement. NOT proved: that every concurrent execution of sync2.Set linearizes (it rests on sync2.Map's concurrent behaviour); that part is exploration: all schedules within a preemption bound of a fixed program catalogue + random + native, judged by the Lean driver. Data races: race detector observation only.",
  "C09": "The map inside the keyed mutex is modelled as ATOMIC (MapAtomic), justified by C04 whose concurrent half is validated but not proved; sync.Mutex/RWMutex by contract; 'never delays' proved as 'never disables'.",
+ "C10": "Proved for all schedules: panic freedom without clones, exactness of Unsub/UnsubAll/WithOnly, per-step forms of wait_complete and sync_exactly_once_in_order. NOT proved: log-level exactly-once for Wait/Sync variants, at-most-once for async variants (checked on real traces by the history predicates), liveness ('eventually'). Known finding: clone-after-unsub panic. Go channels/select/timers/RWMutex/WaitGroup by contract.",
  "C17": "sync.Once is modelled by its algorithm (done flag + mutex); Go memory-model visibility of the result fields is trusted (follows from sync.Once's happens-before).",
  "C18": "atomic.Value and sync.Pool are modelled by contract; race freedom is a theorem about the model's plain-access sets tied to the source by regenerated facts, plus race-detector observation.",
  "C19": "Channels, select, timers, contexts by contract; wall-clock timing is not modelled (a timer is a nondeterministic choice); scenario systems assume the timer cannot fire before the helper first polls its select (promptPoll), the theorems do not.",
